@@ -27,6 +27,7 @@ func addSpatial(c *vrt.Ctx, ts *[]task) {
 			runR2(x, p)
 			runR3(x, p)
 			runR3Mat(x, p)
+			runR3MatStates(x, p)
 		}})
 	}
 }
@@ -853,4 +854,368 @@ func areaTol(area, longest float64) float64 {
 		return worst
 	}
 	return math.Min(16*vrt.Eps64*l2*l2/area+64*vrt.Eps64*l2, worst)
+}
+
+// ---------------------------------------------------------------------------
+// r3.Mat object states: every method crossed with the ways a Mat can come into
+// being and be reused. A Mat allocates its backing array lazily, so "the 3×3
+// zero matrix" has two representations (data == nil until the first
+// At/Set/RawMatrix) and a receiver may already hold unrelated data.
+//
+//	source states:   untouched zero value, zero value after At, NewMat(nil),
+//	                 NewMat(data), zero value filled through RawMatrix().Data,
+//	                 a mat.Dense over RawMatrix().Data, the T() view of a Mat
+//	receiver states: untouched zero value, NewMat(nil), dirty (NewMat of
+//	                 unrelated non-zero data), dirty after lazy allocation
+//	                 (zero value + Set), the same object as an operand
+//
+// The expected elements come from the values the sources were built from
+// (never read back through the source before the call: At would change its
+// state) and the component formulas; sources must be unchanged afterwards.
+// Small integers: every formula is exact, results are joined across builds.
+// ---------------------------------------------------------------------------
+
+type matOperand struct {
+	state string
+	m     mat.Matrix
+	self  *r3.Mat // non-nil when the operand is itself a *r3.Mat (can double as receiver)
+	vals  [9]float64
+}
+
+const numSrcStates = 7
+
+func mkMatOperand(r *vrt.Rand, state int) matOperand {
+	var v [9]float64
+	for i := range v {
+		v[i] = float64(r.Range(-8, 8))
+	}
+	if v[4] == 0 {
+		v[4] = 3
+	}
+	switch state {
+	case 0:
+		z := &r3.Mat{}
+		return matOperand{state: "zero-untouched", m: z, self: z}
+	case 1:
+		z := &r3.Mat{}
+		z.At(1, 1)
+		return matOperand{state: "zero-after-At", m: z, self: z}
+	case 2:
+		z := r3.NewMat(nil)
+		return matOperand{state: "NewMat(nil)", m: z, self: z}
+	case 3:
+		z := r3.NewMat(append([]float64(nil), v[:]...))
+		return matOperand{state: "NewMat(data)", m: z, self: z, vals: v}
+	case 4:
+		z := &r3.Mat{}
+		copy(z.RawMatrix().Data, v[:])
+		return matOperand{state: "filled-through-RawMatrix", m: z, self: z, vals: v}
+	case 5:
+		z := r3.NewMat(append([]float64(nil), v[:]...))
+		return matOperand{state: "Dense-over-RawMatrix", m: mat.NewDense(3, 3, z.RawMatrix().Data), vals: v}
+	default:
+		z := r3.NewMat(append([]float64(nil), v[:]...))
+		var t [9]float64
+		for i := 0; i < 3; i++ {
+			for j := 0; j < 3; j++ {
+				t[3*i+j] = v[3*j+i]
+			}
+		}
+		return matOperand{state: "T-view", m: z.T(), vals: t}
+	}
+}
+
+const numRecvStates = 4
+
+func mkReceiver(r *vrt.Rand, state int) (*r3.Mat, string) {
+	switch state {
+	case 0:
+		return &r3.Mat{}, "zero-untouched"
+	case 1:
+		return r3.NewMat(nil), "NewMat(nil)"
+	case 2:
+		d := make([]float64, 9)
+		for i := range d {
+			d[i] = float64(50 + r.Intn(40))
+		}
+		return r3.NewMat(d), "dirty"
+	default:
+		z := &r3.Mat{}
+		for i := 0; i < 3; i++ {
+			for j := 0; j < 3; j++ {
+				z.Set(i, j, float64(-50-r.Intn(40)))
+			}
+		}
+		return z, "dirty-lazily-allocated"
+	}
+}
+
+func readAny(m mat.Matrix) [9]float64 {
+	var o [9]float64
+	for i := 0; i < 3; i++ {
+		for j := 0; j < 3; j++ {
+			o[3*i+j] = m.At(i, j)
+		}
+	}
+	return o
+}
+
+func runR3MatStates(x *idxCtx, part int) {
+	c := x.c
+	r := c.RNG("r3mat.states", part)
+	var dig []uint64
+	check := func(method, states string, got, want [9]float64, rp any) {
+		x.t.eval("r3.Mat."+method+"|"+states, true)
+		for i := range got {
+			if !sameF(got[i]+0, want[i]+0) {
+				x.bad("r3.Mat."+method, states, "not-the-component-formula", rp, "got %v want %v", got, want)
+				break
+			}
+		}
+		for _, v := range got {
+			dig = append(dig, canonBits(v+0))
+		}
+	}
+	unchanged := func(method, states string, op matOperand, rp any) {
+		if readAny(op.m) != op.vals {
+			x.bad("r3.Mat."+method, states, "modified-source", rp, "source now %v, was %v", readAny(op.m), op.vals)
+		}
+	}
+	mul := func(a, b [9]float64) (o [9]float64) {
+		for i := 0; i < 3; i++ {
+			for j := 0; j < 3; j++ {
+				o[3*i+j] = a[3*i]*b[j] + a[3*i+1]*b[3+j] + a[3*i+2]*b[6+j]
+			}
+		}
+		return
+	}
+	// ---- unary: CloneFrom(a), Scale(f, a); receiver distinct or the operand itself
+	for sa := 0; sa < numSrcStates; sa++ {
+		for rs := 0; rs <= numRecvStates; rs++ {
+			for op := 0; op < 2; op++ {
+				a := mkMatOperand(r, sa)
+				var m *r3.Mat
+				var rname string
+				if rs == numRecvStates {
+					if a.self == nil {
+						continue
+					}
+					m, rname = a.self, "same-as-a"
+				} else {
+					m, rname = mkReceiver(r, rs)
+				}
+				st := "src=" + a.state + ",recv=" + rname
+				rp := map[string]any{"a": a.vals, "states": st}
+				f := float64(r.Range(-3, 3))
+				want := a.vals
+				name := "CloneFrom"
+				if op == 0 {
+					m.CloneFrom(a.m)
+				} else {
+					name = "Scale"
+					m.Scale(f, a.m)
+					for i := range want {
+						want[i] = f * a.vals[i]
+					}
+				}
+				check(name, st, matOf(m), want, rp)
+				if m != a.self {
+					unchanged(name, st, a, rp)
+				}
+			}
+		}
+	}
+	// ---- binary: Add, Sub, Mul; receiver distinct, == a, == b, a == b, all three the same
+	for sa := 0; sa < numSrcStates; sa++ {
+		for sb := 0; sb < numSrcStates; sb++ {
+			for rs := 0; rs < numRecvStates+4; rs++ {
+				// keep the cross product affordable: all receiver states for the
+				// pairs that involve a zero-like source, a rotating one otherwise
+				if sa > 2 && sb > 2 && rs < numRecvStates && rs != (sa+sb+part)%numRecvStates {
+					continue
+				}
+				for op := 0; op < 3; op++ {
+					a, b := mkMatOperand(r, sa), mkMatOperand(r, sb)
+					var m *r3.Mat
+					var rname string
+					switch rs - numRecvStates {
+					case 0:
+						if a.self == nil {
+							continue
+						}
+						m, rname = a.self, "same-as-a"
+					case 1:
+						if b.self == nil {
+							continue
+						}
+						m, rname = b.self, "same-as-b"
+					case 2:
+						b = a
+						m, rname = mkReceiver(r, (sa+part)%numRecvStates)
+						rname += ",a-is-b"
+					case 3:
+						if a.self == nil {
+							continue
+						}
+						b = a
+						m, rname = a.self, "same-as-a-and-b"
+					default:
+						m, rname = mkReceiver(r, rs)
+					}
+					st := "a=" + a.state + ",b=" + b.state + ",recv=" + rname
+					rp := map[string]any{"a": a.vals, "b": b.vals, "states": st}
+					var want [9]float64
+					name := [...]string{"Add", "Sub", "Mul"}[op]
+					switch op {
+					case 0:
+						m.Add(a.m, b.m)
+						for i := range want {
+							want[i] = a.vals[i] + b.vals[i]
+						}
+					case 1:
+						m.Sub(a.m, b.m)
+						for i := range want {
+							want[i] = a.vals[i] - b.vals[i]
+						}
+					case 2:
+						m.Mul(a.m, b.m)
+						want = mul(a.vals, b.vals)
+					}
+					check(name, st, matOf(m), want, rp)
+					if m != a.self {
+						unchanged(name, st, a, rp)
+					}
+					if m != b.self {
+						unchanged(name, st, b, rp)
+					}
+				}
+			}
+		}
+	}
+	// ---- the receiver as the only matrix: readers on every source state, full
+	// overwriters and Set on every receiver state
+	for sa := 0; sa < 5; sa++ {
+		v := r3.Vec{X: float64(r.Range(-8, 8)), Y: float64(r.Range(-8, 8)), Z: float64(r.Range(-8, 8))}
+		for op := 0; op < 8; op++ {
+			a := mkMatOperand(r, sa) // fresh object per reader: the first read is the one that meets the state
+			m, av := a.self, a.vals
+			st := "recv=" + a.state
+			rp := map[string]any{"a": av, "v": v, "states": st}
+			var got, want [9]float64
+			name := ""
+			switch op {
+			case 0:
+				name = "MulVec"
+				g := m.MulVec(v)
+				got = [9]float64{g.X, g.Y, g.Z}
+				for i := 0; i < 3; i++ {
+					want[i] = v.X*av[3*i] + v.Y*av[3*i+1] + v.Z*av[3*i+2]
+				}
+			case 1:
+				name = "MulVecTrans"
+				g := m.MulVecTrans(v)
+				got = [9]float64{g.X, g.Y, g.Z}
+				for i := 0; i < 3; i++ {
+					want[i] = v.X*av[i] + v.Y*av[3+i] + v.Z*av[6+i]
+				}
+			case 2:
+				name = "VecRow"
+				for i := 0; i < 3; i++ {
+					g := m.VecRow(i)
+					got[3*i], got[3*i+1], got[3*i+2] = g.X, g.Y, g.Z
+				}
+				want = av
+			case 3:
+				name = "VecCol"
+				for j := 0; j < 3; j++ {
+					g := m.VecCol(j)
+					got[j], got[3+j], got[6+j] = g.X, g.Y, g.Z
+				}
+				want = av
+			case 4:
+				name = "Det"
+				got[0] = m.Det()
+				want[0] = av[0]*(av[4]*av[8]-av[5]*av[7]) - av[1]*(av[3]*av[8]-av[5]*av[6]) + av[2]*(av[3]*av[7]-av[4]*av[6])
+			case 5:
+				name = "T"
+				t := readAny(m.T())
+				for i := 0; i < 3; i++ {
+					for j := 0; j < 3; j++ {
+						got[3*i+j] = t[3*j+i]
+					}
+				}
+				want = av
+			case 6:
+				name = "RawMatrix"
+				raw := m.RawMatrix()
+				if len(raw.Data) == 9 && raw.Stride == 3 {
+					copy(got[:], raw.Data)
+				}
+				want = av
+			case 7:
+				name = "At"
+				got = matOf(m)
+				want = av
+			}
+			check(name, st, got, want, rp)
+			if matOf(m) != av {
+				x.bad("r3.Mat."+name, st, "modified-receiver", rp, "receiver now %v, was %v", matOf(m), av)
+			}
+		}
+	}
+	for rs := 0; rs < numRecvStates; rs++ {
+		v := r3.Vec{X: float64(r.Range(1, 8)), Y: float64(r.Range(-8, -1)), Z: float64(r.Range(1, 8))}
+		w := r3.Vec{X: float64(r.Range(-8, 8)), Y: float64(r.Range(-8, 8)), Z: float64(r.Range(-8, 8))}
+		al := float64(r.Range(-3, 3))
+		for op := 0; op < 5; op++ {
+			m, rname := mkReceiver(r, rs)
+			before := [9]float64{}
+			if rs >= 2 {
+				before = matOf(m)
+			}
+			st := "recv=" + rname
+			rp := map[string]any{"v": v, "w": w, "states": st}
+			var want [9]float64
+			name := ""
+			switch op {
+			case 0:
+				name = "Skew"
+				m.Skew(v)
+				want = [9]float64{0, -v.Z, v.Y, v.Z, 0, -v.X, -v.Y, v.X, 0}
+			case 1:
+				name = "Outer"
+				m.Outer(al, v, w)
+				vc, wc := [3]float64{v.X, v.Y, v.Z}, [3]float64{w.X, w.Y, w.Z}
+				for i := 0; i < 3; i++ {
+					for j := 0; j < 3; j++ {
+						want[3*i+j] = al * vc[i] * wc[j]
+					}
+				}
+			case 2:
+				name = "Jacobian"
+				a := mkMatOperand(r, 3)
+				m.Jacobian(v, r3.Vec{X: 0.5, Y: 1, Z: 0.25}, func(u r3.Vec) r3.Vec { return a.self.MulVec(u) })
+				want = a.vals
+			case 3:
+				name = "Hessian"
+				a := mkMatOperand(r, 3)
+				hs := a.vals
+				for i := 0; i < 3; i++ {
+					for j := 0; j < i; j++ {
+						hs[3*i+j] = hs[3*j+i]
+					}
+				}
+				H := r3.NewMat(append([]float64(nil), hs[:]...))
+				m.Hessian(v, r3.Vec{X: 0.5, Y: 1, Z: 0.25}, func(u r3.Vec) float64 { return 0.5*r3.Dot(u, H.MulVec(u)) + r3.Dot(w, u) })
+				want = hs
+			case 4:
+				name = "Set"
+				want = before
+				m.Set(2, 1, al)
+				want[7] = al
+			}
+			check(name, st, matOf(m), want, rp)
+		}
+	}
+	c.Digest(fmt.Sprintf("r3.Mat.states|part=%d", part), "exact", dig...)
 }
